@@ -3,7 +3,7 @@
    core/numba_kernels.py, api/fmm/helpers.py and the operator factories on every run. *)
 From Coq Require Import Reals String List.
 From BVgen Require Import NumbaKernels Dispatch.
-From BV Require Import Kernels.KernelTactics Kernels.DispatchModel Kernels.C05Lemmas.
+From BV Require Import Kernels.KernelTactics Kernels.DispatchModel Kernels.C05Lemmas Kernels.SmallK.
 Import ListNotations.
 Open Scope R_scope.
 Open Scope string_scope.
@@ -90,3 +90,37 @@ Theorem C05_factories_kernel_types_known :
   Forall (fun f => kernel_of numba_kernel_functions_regular (f_kernel_type f) <> None) factories.
 Proof. exact factories_kernel_types_known. Qed.
 Print Assumptions C05_factories_kernel_types_known.
+
+(* Pointwise small-wavenumber bounds of the property's first sentence, on the generated regular (= potential) kernels,
+   with r = |x - y|, stated as squared moduli.  _partial: proved for purely real k (single and double layer) and purely
+   imaginary k (single layer); general complex k, the adjoint double layer, and the lift to matrix entries through the
+   quadrature sum (m m' factor) are not proved -- the search checks the matrix bounds on assembled operators. *)
+Theorem C05_small_k_bounds_partial :
+  forall x0 x1 x2 y0 y1 y2 nx0 nx1 nx2 ny0 ny1 ny2 : R, (x0, x1, x2) <> (y0, y1, y2) ->
+  let r := sqrt (r2 x0 x1 x2 y0 y1 y2) in
+  (* real k, |k| r <= 1:  |K_helm - K_lap - i k/(4 pi)| <= k^2 r/(4 pi) *)
+  (forall k p q : R, (k * r) * (k * r) <= 1 ->
+     let re := helmholtz_single_layer_regular_re x0 x1 x2 y0 y1 y2 nx0 nx1 nx2 ny0 ny1 ny2 k 0 in
+     let im := helmholtz_single_layer_regular_im x0 x1 x2 y0 y1 y2 nx0 nx1 nx2 ny0 ny1 ny2 k 0 in
+     let l := laplace_single_layer_regular_re x0 x1 x2 y0 y1 y2 nx0 nx1 nx2 ny0 ny1 ny2 p q in
+     (re - l) * (re - l) + (im - k / (4 * PI)) * (im - k / (4 * PI)) <= (k * k * r / (4 * PI)) * (k * k * r / (4 * PI))) /\
+  (* k = i w, |w| r <= 1:  real, and 0 <= K_helm - K_lap - i(iw)/(4 pi) <= w^2 r/(4 pi) *)
+  (forall w p q : R, -1 <= w * r <= 1 ->
+     let re := helmholtz_single_layer_regular_re x0 x1 x2 y0 y1 y2 nx0 nx1 nx2 ny0 ny1 ny2 0 w in
+     let im := helmholtz_single_layer_regular_im x0 x1 x2 y0 y1 y2 nx0 nx1 nx2 ny0 ny1 ny2 0 w in
+     let l := laplace_single_layer_regular_re x0 x1 x2 y0 y1 y2 nx0 nx1 nx2 ny0 ny1 ny2 p q in
+     im = 0 /\ 0 <= re - l - (- w) / (4 * PI) <= w * w * r / (4 * PI)) /\
+  (* real k, |k| r <= 1:  |K_dl,helm - K_dl,lap| <= k^2/(4 pi) |n_y.(y-x)|/r  (<= k^2/(4 pi) for a unit normal) *)
+  (forall k : R, (k * r) * (k * r) <= 1 ->
+     let re := helmholtz_double_layer_regular_re x0 x1 x2 y0 y1 y2 nx0 nx1 nx2 ny0 ny1 ny2 k 0 in
+     let im := helmholtz_double_layer_regular_im x0 x1 x2 y0 y1 y2 nx0 nx1 nx2 ny0 ny1 ny2 k 0 in
+     let l := laplace_double_layer_regular_re x0 x1 x2 y0 y1 y2 nx0 nx1 nx2 ny0 ny1 ny2 k 0 in
+     let cosang := ((y0 - x0) * ny0 + (y1 - x1) * ny1 + (y2 - x2) * ny2) / r in
+     (re - l) * (re - l) + im * im <= (k * k / (4 * PI) * cosang) * (k * k / (4 * PI) * cosang)).
+Proof.
+  exact (fun x0 x1 x2 y0 y1 y2 nx0 nx1 nx2 ny0 ny1 ny2 H =>
+    conj (helmholtz_sl_small_real_k x0 x1 x2 y0 y1 y2 nx0 nx1 nx2 ny0 ny1 ny2 H)
+   (conj (helmholtz_sl_small_imag_k x0 x1 x2 y0 y1 y2 nx0 nx1 nx2 ny0 ny1 ny2 H)
+         (helmholtz_dl_small_real_k x0 x1 x2 y0 y1 y2 nx0 nx1 nx2 ny0 ny1 ny2 H))).
+Qed.
+Print Assumptions C05_small_k_bounds_partial.
